@@ -2,6 +2,7 @@ package core
 
 import (
 	"fmt"
+	"strings"
 	"go/token"
 	"go/types"
 	"os"
@@ -18,12 +19,141 @@ type TaintSpec struct {
 	// SourceField: a load of *X.field (pointer-typed optional number of a decoded message)
 	// or X.field is untrusted.
 	SourceField func(typ, field string) bool
+
+	// convLeaf: results of repository helpers that hand up an untrusted value after
+	// converting it from a 64-bit unsigned to a signed integer (filled by taintedLeaves)
+	convLeaf map[ssa.Value]bool
+	// signOnly: a leaf that is bounded above where it is produced (min(x, K)) but may be
+	// negative (the bound was taken after a conversion from a 64-bit unsigned value)
+	signOnly map[ssa.Value]bool
+	probe    *ssa.Function // its parameters count as sources while a summary is computed
+	summary  map[*ssa.Function]map[int]*helperSum
+}
+
+// helperSum: how result idx of a helper depends on untrusted values.
+type helperSum struct {
+	internal int // 0 none, 2 from a source read inside the helper, 3 the same after a signed conversion
+	deps     []helperDep
+}
+
+type helperDep struct {
+	param    int
+	conv     bool // converted from a 64-bit unsigned to a signed integer on the way
+	signOnly bool // bounded above on the way (min with a clean value)
+}
+
+func isU64(t types.Type) bool {
+	b, ok := t.Underlying().(*types.Basic)
+	return ok && b.Info()&types.IsUnsigned != 0 && (b.Kind() == types.Uint64 || b.Kind() == types.Uint || b.Kind() == types.Uintptr)
+}
+
+func isSignedInt(t types.Type) bool {
+	b, ok := t.Underlying().(*types.Basic)
+	return ok && b.Info()&types.IsInteger != 0 && b.Info()&types.IsUnsigned == 0
+}
+
+// helperResult: the result idx of a call to a function of the repository is untrusted
+// when one of the values the function returns there derives from a source it reads itself
+// (peekHeader(buf) (hdr, val int, ok bool)) or from a parameter whose argument at this
+// call is untrusted (clampMTU(*params.Mtu)).
+func (t *TaintSpec) helperResult(cl *ssa.Call, idx int, depth int) (tainted, converted, signOnly bool) {
+	h := cl.Call.StaticCallee()
+	if h == nil || h.Blocks == nil || depth > 2 || h.Pkg == nil || !strings.HasPrefix(h.Pkg.Pkg.Path(), ModPath) {
+		return false, false, false
+	}
+	if t.summary == nil {
+		t.summary = map[*ssa.Function]map[int]*helperSum{}
+	}
+	if t.summary[h] == nil {
+		t.summary[h] = map[int]*helperSum{}
+	}
+	sum, ok := t.summary[h][idx]
+	if !ok {
+		sum = &helperSum{}
+		t.summary[h][idx] = sum // recursion guard: an empty summary
+		savedProbe := t.probe
+		t.probe = h
+		Instrs(h, func(in ssa.Instruction) {
+			r, ok := in.(*ssa.Return)
+			if !ok || idx >= len(r.Results) || in.Block() == h.Recover {
+				return
+			}
+			v := r.Results[idx]
+			bt, isB := v.Type().Underlying().(*types.Basic)
+			if !isB || bt.Info()&types.IsInteger == 0 {
+				return
+			}
+			for _, l := range t.taintedLeavesD(v, depth+1) {
+				conv := (isU64(l.Type()) && isSignedInt(v.Type())) || t.convLeaf[l]
+				if par, isP := l.(*ssa.Parameter); isP && par.Parent() == h && !(t.SourceParam != nil && t.SourceParam(par)) {
+					for i, q := range h.Params {
+						if q == par {
+							sum.deps = append(sum.deps, helperDep{i, conv, t.signOnly[l]})
+						}
+					}
+					continue
+				}
+				if t.signOnly[l] && !conv {
+					continue
+				}
+				if conv {
+					sum.internal = 3
+				} else if sum.internal < 2 {
+					sum.internal = 2
+				}
+			}
+		})
+		t.probe = savedProbe
+	}
+	if sum.internal >= 2 {
+		tainted = true
+		converted = sum.internal == 3
+	}
+	allSignOnly := !tainted
+	for _, d := range sum.deps {
+		if d.param >= len(cl.Call.Args) {
+			continue
+		}
+		savedProbe := t.probe
+		t.probe = nil
+		ls := t.taintedLeavesD(cl.Call.Args[d.param], depth+1)
+		t.probe = savedProbe
+		if len(ls) == 0 {
+			continue
+		}
+		if d.signOnly && !d.conv {
+			continue // bounded above and never converted: clean
+		}
+		tainted = true
+		if d.conv {
+			converted = true
+		}
+		if !d.signOnly {
+			allSignOnly = false
+		}
+	}
+	return tainted, converted, tainted && allSignOnly
 }
 
 // taintedLeaves returns the untrusted origins of an integer value: the SSA values (before
 // any conversion) whose comparison with a bound constrains v.
-func (t *TaintSpec) taintedLeaves(v ssa.Value) []ssa.Value {
+func (t *TaintSpec) taintedLeaves(v ssa.Value) []ssa.Value { return t.taintedLeavesD(v, 0) }
+
+func (t *TaintSpec) taintedLeavesD(v ssa.Value, hdepth int) []ssa.Value {
+	if t.convLeaf == nil {
+		t.convLeaf = map[ssa.Value]bool{}
+		t.signOnly = map[ssa.Value]bool{}
+	}
 	var out []ssa.Value
+	note := func(v ssa.Value, conv, so bool) {
+		out = append(out, v)
+		if conv {
+			t.convLeaf[v] = true
+		}
+		if so {
+			t.signOnly[v] = true
+		}
+	}
 	seen := map[ssa.Value]bool{}
 	var walk func(v ssa.Value, d int)
 	walk = func(v ssa.Value, d int) {
@@ -44,9 +174,13 @@ func (t *TaintSpec) taintedLeaves(v ssa.Value) []ssa.Value {
 				walk(e, d+1)
 			}
 		case *ssa.Extract:
-			if c, ok := x.Tuple.(*ssa.Call); ok && x.Index == 0 {
+			if c, ok := x.Tuple.(*ssa.Call); ok {
 				if id, ok := Callee(&c.Call); ok && t.SourceCall != nil && t.SourceCall(id) {
-					out = append(out, v)
+					if x.Index == 0 {
+						out = append(out, v)
+					}
+				} else if ta, conv, so := t.helperResult(c, x.Index, hdepth); ta {
+					note(v, conv, so)
 				}
 			}
 		case *ssa.Call:
@@ -56,14 +190,57 @@ func (t *TaintSpec) taintedLeaves(v ssa.Value) []ssa.Value {
 					return
 				}
 				// min/max builtins bound their result by each argument: not tainted if one arg is clean
-				if id.Pkg == "builtin" && (id.Name == "min" || id.Name == "max") {
+				if id.Pkg == "builtin" && id.Name == "min" {
+					// min(x, clean) is bounded above by the clean value; what is left of an
+					// untrusted operand is its sign, when it was a 64-bit unsigned value
+					// converted to a signed one before the min was taken
+					clean := false
+					for _, a := range x.Call.Args {
+						before := len(out)
+						walk(a, d+1)
+						if len(out) == before {
+							clean = true
+						}
+						out = out[:before]
+					}
+					if clean {
+						for _, a := range x.Call.Args {
+							before := len(out)
+							delete(seen, StripConv(a))
+							walk(a, d+1)
+							kept := out[:before]
+							for _, l := range out[before:] {
+								if (isU64(l.Type()) && isSignedInt(x.Type())) || t.convLeaf[l] {
+									t.signOnly[l] = true
+									kept = append(kept, l)
+								}
+							}
+							out = kept
+						}
+						return
+					}
+					for _, a := range x.Call.Args {
+						delete(seen, StripConv(a))
+						walk(a, d+1)
+					}
+					return
+				}
+				if id.Pkg == "builtin" && id.Name == "max" {
 					for _, a := range x.Call.Args {
 						walk(a, d+1)
 					}
+					return
+				}
+			}
+			if x.Call.Signature().Results().Len() == 1 {
+				if ta, conv, so := t.helperResult(x, 0, hdepth); ta {
+					note(v, conv, so)
 				}
 			}
 		case *ssa.Parameter:
 			if t.SourceParam != nil && t.SourceParam(x) {
+				out = append(out, v)
+			} else if t.probe != nil && x.Parent() == t.probe {
 				out = append(out, v)
 			}
 		case *ssa.UnOp:
@@ -158,9 +335,15 @@ func atomUpperBounded(leaf ssa.Value, sawUnsigned *bool) *Atom {
 			return 0, 0
 		}
 		side := 0
-		if StripConv(x) == leaf || derivesFrom(x, leaf) {
+		// a second load of the same field of the same decoded message is the same number
+		sameLoad := func(v ssa.Value) bool {
+			a, ok1 := StripConv(v).(*ssa.UnOp)
+			b, ok2 := leaf.(*ssa.UnOp)
+			return ok1 && ok2 && a.Op == token.MUL && b.Op == token.MUL && Same(a, b)
+		}
+		if StripConv(x) == leaf || derivesFrom(x, leaf) || sameLoad(x) {
 			side = 1
-		} else if StripConv(y) == leaf || derivesFrom(y, leaf) {
+		} else if StripConv(y) == leaf || derivesFrom(y, leaf) || sameLoad(y) {
 			side = 2
 			op = Swap(op)
 			x = y
@@ -252,6 +435,19 @@ type SinkVerdict struct {
 func (t *TaintSpec) Bounded(p *Prog, fn *ssa.Function, s Sink) SinkVerdict {
 	for _, leaf := range s.Leaves {
 		sawUnsigned := false
+		if t.signOnly[leaf] {
+			// bounded above where it was produced; only the sign is open
+			okSign := false
+			for _, v := range []ssa.Value{s.Val, leaf} {
+				if g2 := Gate(fn, []ssa.Instruction{s.Instr}, Lit{A: atomNonNegative(v), Want: true}); g2.OK && g2.PassEdges > 0 {
+					okSign = true
+				}
+			}
+			if !okSign {
+				return SinkVerdict{false, fmt.Sprintf("the untrusted 64-bit value is bounded only after conversion to int: values ≥ 2^63 become negative, pass the bound and reach this %s", s.Kind)}
+			}
+			continue
+		}
 		a := atomUpperBounded(leaf, &sawUnsigned)
 		cut, per := CutEdges(fn, Lit{A: a, Want: true})
 		start := Point{fn.Blocks[0], 0}
@@ -318,10 +514,20 @@ func (t *TaintSpec) Bounded(p *Prog, fn *ssa.Function, s Sink) SinkVerdict {
 		// sign
 		lb, isB := leaf.Type().Underlying().(*types.Basic)
 		vb, isVB := s.Val.Type().Underlying().(*types.Basic)
-		if isB && isVB && lb.Info()&types.IsUnsigned != 0 && vb.Info()&types.IsUnsigned == 0 && (lb.Kind() == types.Uint64 || lb.Kind() == types.Uint || lb.Kind() == types.Uintptr) {
+		converted := isB && isVB && lb.Info()&types.IsUnsigned != 0 && vb.Info()&types.IsUnsigned == 0 && (lb.Kind() == types.Uint64 || lb.Kind() == types.Uint || lb.Kind() == types.Uintptr)
+		if t.convLeaf[leaf] {
+			// converted inside the helper that handed the value up: a comparison made here
+			// is made on the signed value
+			converted, sawUnsigned = true, false
+		}
+		if converted {
 			okSign := sawUnsigned
 			if !okSign {
 				g2 := Gate(fn, []ssa.Instruction{s.Instr}, Lit{A: atomNonNegative(s.Val), Want: true})
+				okSign = g2.OK && g2.PassEdges > 0
+			}
+			if !okSign {
+				g2 := Gate(fn, []ssa.Instruction{s.Instr}, Lit{A: atomNonNegative(leaf), Want: true})
 				okSign = g2.OK && g2.PassEdges > 0
 			}
 			if !okSign {
@@ -349,3 +555,7 @@ func (t *TaintSpec) Bounded(p *Prog, fn *ssa.Function, s Sink) SinkVerdict {
 	}
 	return SinkVerdict{OK: true, Reason: "bounded by comparison(s) on every path from its source"}
 }
+
+// Leaves exposes the untrusted origins of v (see taintedLeaves) for rules that build
+// their own sinks (an argument of a particular call).
+func (t *TaintSpec) Leaves(v ssa.Value) []ssa.Value { return t.taintedLeaves(v) }
